@@ -3,10 +3,13 @@ pub mod c02;
 pub mod c03;
 pub mod c04;
 pub mod c06;
+pub mod c07;
+pub mod c08;
+pub mod c12;
 pub mod streamconf;
 
 use crate::engine::CheckDef;
 
 pub fn all() -> Vec<CheckDef> {
-    vec![c02::def(), c03::def(), c04::def(), c06::def()]
+    vec![c02::def(), c03::def(), c04::def(), c06::def(), c07::def(), c08::def(), c12::def()]
 }
